@@ -16,3 +16,8 @@ add('C04', 'ENUM', 'exploration',
     'check_approvals is run on every combination of review settings accepted by the schema, every source of every bypass, approve/unanimity and every review state of 5 users (6.8M cases quick, all listed in the quantifier thorough) and compared with a reference written from the statement.',
     'Stub pull request/job objects provide exactly the attributes the function reads; comment-sourced options are set as Reactor.handle_options sets them (parsing is C07).',
     'exhaustive input enumeration vs reference oracle', 'DESIGN.md section 5 C04')
+
+add('C18', 'ENUM', 'exploration',
+    'Every name of a bounded grammar (prefixes x version shapes x labels incl. nested robot names) is classified by the real branch_factory and predicates and compared, attribute by attribute, with a split-based reference parser; every derived w/, q/, q/w/ name is built by the real constructors and parsed back.',
+    'ASCII names without newline; FakeRepo stands for git (no command is needed to classify a name).',
+    'exhaustive input enumeration vs reference parser + round trip', 'DESIGN.md section 5 C18')
